@@ -341,6 +341,7 @@ impl Property for C09 {
             lines: case.lines.clone(),
             env: case.env.clone(),
             clock: Clock::default(),
+            real_state: false,
         };
         // Keep going after errors (as the REPL does); a panic poisons the VM and ends the run.
         let trace = run_job(&job, &Schedule::reference(case.hash_seed), true);
